@@ -152,3 +152,15 @@ Proof.
     rewrite nids_nrm in Hn, Hx. exists q. auto.
   - intros (q & Hin & Hn & Hx). exists (nrm_q q). split; [apply in_map, Hin|]. unfold nrm_q. cbn [nlhs nrhs]. rewrite !nids_nrm. auto.
 Qed.
+
+(* the bridge between what the graph reads (Symbol.equation) and what runs (Symbol.code): for a source statement both are
+   renderings of ONE token list T = nrm (whole_toks q) — nflat T writes a term as NAME[t+k], cflat T writes the same term as
+   self._NAME[t+k] (Denorm.tok_code) and every other token identically — and no symbol carries any other text *)
+Theorem source_statement_texts lay q syms :
+  dq_ok_ws lay q = true -> parse_equation_M (denorm_text lay q) = POk syms ->
+  forall s, In s syms -> tame (nflat (nrm (whole_toks q))) (cflat (nrm (whole_toks q))) s.
+Proof.
+  intros Hq Hp. rewrite (parse_denorm_general lay q Hq) in Hp.
+  destruct (equation_symbols (nflat (nrm (whole_toks q))) (cflat (nrm (whole_toks q))) (lneq_terms lay q)) as [l|] eqn:E; [|discriminate].
+  inversion Hp; subst l. apply (equation_symbols_texts _ _ _ _ E).
+Qed.
